@@ -88,6 +88,7 @@ Definition run_C09 (cmd : Z) (ints : list Z) (arrs : list (list Q)) : option (li
       Some (tab2 rows cols (apply_mask (mask_fast M L) (arr2 rows cols (arr arrs 0))))
   | 20%Z => (* the factory table *)
       Some (concat (map (fun g => let '(tl, mw, gn) := g in [qofb tl; qofn mw; qofn gn]) grid_table))
+  | 21%Z => Some [CONSTANT_NORMALIZATION_FACTOR_Q]
   | _ => None
   end.
 
